@@ -237,6 +237,14 @@ func suiteRedisConc(c *Ctx) {
 		redisConcMerge(c, s, "cms")
 		redisConcMerge(c, s, "hll")
 	}
+	for r := 0; r < c.scale(2, 10); r++ {
+		redisConcMerge(c, s, "cms-wide")
+	}
+	for r := 0; r < c.scale(8, 50); r++ {
+		for ki := 0; ki < 5; ki++ {
+			redisConcEquals(c, s, ki)
+		}
+	}
 	redisCommandSequences(c, s)
 	redisCuckooLengthAcrossHandles(c)
 	redisFaults(c)
@@ -601,8 +609,13 @@ func redisConcMerge(c *Ctx, s *cmdSched, kind string) {
 	var opsPer [][]int
 	var order []int
 	switch kind {
-	case "cms":
+	case "cms", "cms-wide":
 		rows, cols := uint(2+c.rng.Intn(2)), uint(3+c.rng.Intn(6))
+		if kind == "cms-wide" {
+			// wider than any row length an implementation might treat specially (4096), still
+			// below the unpack limit of the Lua stand-in (~5100)
+			rows, cols = 2, uint(4200+c.rng.Intn(700))
+		}
 		mk := func() *gostatix.CountMinSketchRedis { h, _ := gostatix.NewCountMinSketchRedis(rows, cols); return h }
 		T, S, seq := mk(), mk(), mk()
 		if T == nil || S == nil || seq == nil {
@@ -684,7 +697,7 @@ func redisConcMerge(c *Ctx, s *cmdSched, kind string) {
 	c.op(kind + ".merge-vs-updates")
 	if final != want {
 		props := []string{"C16", "C12"}
-		if kind != "cms" {
+		if kind != "cms" && kind != "cms-wide" {
 			props = []string{"C16", "C06"}
 		}
 		c.fail(props, kind+"-merge-loses-concurrent-update",
@@ -799,4 +812,122 @@ func redisFaults(c *Ctx) {
 		c.nontrivial(fmt.Sprint(rows, cols, hist))
 	}
 	c.branch("fault-injection")
+	redisFaultsHLL(c, fh)
+	redisFaultsBloom(c, fh)
+}
+
+// HyperLogLog: an Update that reported an error is retried by the caller until it is
+// acknowledged; every acknowledged element must then be in the registers (= a sketch that
+// received the same elements without faults), through this and through an attached handle.
+func redisFaultsHLL(c *Ctx, fh *faultHook) {
+	for round := 0; round < c.scale(10, 60); round++ {
+		m := []uint64{128, 256}[round%2]
+		h, err := gostatix.NewHyperLogLogRedis(m)
+		ref, err2 := gostatix.NewHyperLogLogRedis(m)
+		if err != nil || err2 != nil || h == nil || ref == nil {
+			continue
+		}
+		c.rep.Cases++
+		h.Update([]byte("warm"))
+		ref.Update([]byte("warm"))
+		var hist []string
+		for i := 0; i < 8+c.rng.Intn(10); i++ {
+			e := []byte(fmt.Sprintf("fault-elem-%d-%d", round, c.rng.Intn(30)))
+			fault := c.rng.Intn(3) == 0
+			for attempt := 0; attempt < 4; attempt++ {
+				if fault && attempt == 0 {
+					fh.mu.Lock()
+					fh.armed, fh.lost = true, c.rng.Intn(2) == 0
+					fh.mu.Unlock()
+				}
+				var uerr error
+				safely(func() { uerr = h.Update(e) })
+				fh.mu.Lock()
+				fh.armed = false
+				fh.mu.Unlock()
+				hist = append(hist, fmt.Sprintf("Update(%s) attempt %d fault=%v err=%v", e, attempt, fault && attempt == 0, uerr != nil))
+				if uerr == nil {
+					break
+				}
+			}
+			ref.Update(e)
+			c.op("hll.update-under-fault")
+		}
+		a, _ := parseHLL(h.Export())
+		b, _ := parseHLL(ref.Export())
+		if fmt.Sprint(a.R) != fmt.Sprint(b.R) {
+			c.fail([]string{"C16", "C06", "C09"}, "hll-acknowledged-update-missing-after-fault",
+				fmt.Sprintf("hll(m=%d,redis=true): after updates hit by connection faults and retried until acknowledged, the registers differ from a sketch that received the same elements", m),
+				map[string]interface{}{"m": m, "history": hist})
+			return
+		}
+	}
+	c.branch("fault-injection-hll")
+}
+
+// Bloom: a filter into which nothing was inserted reports every element absent - also when a
+// GETBIT of the lookup fails (a failed read is not a set bit).
+func redisFaultsBloom(c *Ctx, fh *faultHook) {
+	f, err := gostatix.NewRedisBloomFilterWithParameters(200, 0.01)
+	if err != nil || f == nil {
+		return
+	}
+	c.rep.Cases++
+	f.Lookup([]byte("warm"))
+	present := 0
+	for i := 0; i < c.scale(60, 300); i++ {
+		fh.mu.Lock()
+		fh.armed, fh.lost = true, i%2 == 0
+		fh.mu.Unlock()
+		got := false
+		safely(func() { got = f.Lookup([]byte(fmt.Sprintf("never-inserted-%d", i))) })
+		fh.mu.Lock()
+		fh.armed = false
+		fh.mu.Unlock()
+		if got {
+			present++
+		}
+		c.op("bloom.lookup-under-fault")
+	}
+	if present > 0 {
+		c.fail([]string{"C16", "C01", "C15"}, "bloom-empty-filter-reports-present-under-fault",
+			fmt.Sprintf("an EMPTY Redis Bloom filter reported %d never-inserted elements present when one GETBIT of the lookup failed", present),
+			map[string]interface{}{"lookups_with_one_failing_command": c.scale(60, 300)})
+	}
+	c.branch("fault-injection-bloom")
+}
+
+// ---------------------------------------------------------------------------------------------
+// Queries on DISJOINT structures interleave freely (C19, C17): two Equals calls on two unrelated
+// pairs of structures, interleaved at command granularity, answer what they answer alone.
+func redisConcEquals(c *Ctx, s *cmdSched, ki int) {
+	kinds := []eqKind{eqBloom(true), eqCMS(true), eqHLL(true), eqCuckoo(true), eqTopK(true)}
+	k := kinds[ki%len(kinds)]
+	h := randHist(c)
+	x1, x2, y1, y2 := k.build(c, 0), k.build(c, 0), k.build(c, 0), k.build(c, 0)
+	if x1 == nil || x2 == nil || y1 == nil || y2 == nil {
+		return
+	}
+	c.rep.Cases++
+	k.feed(c, x1, h)
+	k.feed(c, x2, append(append([]int(nil), h...), 5, 17, 23))
+	h2 := randHist(c)
+	k.feed(c, y1, h2)
+	k.feed(c, y2, h2)
+	wantX, _ := k.equals(x1, x2)
+	wantY, _ := k.equals(y1, y2)
+	var gotX, gotY bool
+	order := s.runScheduled(c.rng.Int63(), nil, []func(){
+		func() { gotX, _ = k.equals(x1, x2) },
+		func() { gotY, _ = k.equals(y1, y2) },
+	})
+	c.op(k.name + ".equals-interleaved")
+	if gotX != wantX || gotY != wantY {
+		c.fail([]string{"C19", "C17", "C16"}, k.name+"-equals-disturbed-by-unrelated-equals",
+			fmt.Sprintf("%s: Equals on one pair of structures interleaved with Equals on an unrelated pair answers (%v,%v); alone they answer (%v,%v)", k.name, gotX, gotY, wantX, wantY),
+			map[string]interface{}{"kind": k.name, "schedule": order})
+	}
+	if alternations(order) >= 2 {
+		c.nontrivial(fmt.Sprint(k.name, "equals", h, h2, order))
+	}
 }
